@@ -826,6 +826,24 @@ def scenario(name: str, kind: str, tmp: str) -> tuple[bool, str]:
             second = len(b.new_launches())
         return (first, second) != (1, 0), (f"AND trigger on events `A` and `B`: one occurrence of each, loop -> {first} launch(es); the same two occurrences reported again "
                                            f"in the other order 5 s later, loop -> {second} more launch(es)")
+    if name == "trigger-definitions-momentarily-absent":
+        # a starting runner re-registers the triggers of a task: it removes the task's definitions and writes them again (two store
+        # operations).  A loop iteration of ANOTHER runner falls in between: the pending occurrence has, for that moment, no trigger.
+        # It is nobody's yet - it stays pending and is launched once the definitions are back.
+        b = _single(kind, tmp, "ta", [CondSpec("event", code="ping")], [TrigSpec("target", [0], "or", ["c:event"])])
+        o = Occurrences(b)
+        trig = b.app.trigger
+        with VirtualClock(T0) as clk:
+            o.event("ping", "2")
+            trig.clean_task_trigger_definitions(b.targets["target"].task_id)
+            trig.trigger_loop_iteration()                      # the other runner's iteration, between the two writes
+            trig.register_task_triggers(b.targets["target"], b.builders["target"])
+            for _ in range(3):
+                clk.advance(2 * US_SEC)
+                trig.trigger_loop_iteration()
+            tags = sorted(x[1] for x in b.launches())
+        return tags != ["2"], (f"event `ping`(n=2) pending while the trigger definitions of its task are re-registered (removed, one loop iteration, written again): "
+                               f"after three more iterations the launches carry n={tags}, {len(b.valid_ids())} occurrence(s) pending")
     if name == "many-unconsumable-occurrences-pending":
         # 120 occurrences that cannot be consumed yet (one side of an AND trigger) are pending when an ordinary event arrives and the
         # AND is completed: both launch, nothing is starved by the backlog
@@ -940,6 +958,7 @@ SCENARIOS = {
     "and-occurrences-redelivered-in-other-order": "and-run-identity-depends-on-delivery-order",
     "occurrence-reported-during-iteration": "occurrence-reported-during-iteration-is-dropped",
     "many-unconsumable-occurrences-pending": "backlog-of-unconsumable-occurrences-starves-the-loop",
+    "trigger-definitions-momentarily-absent": "occurrence-dropped-while-trigger-definitions-are-re-registered",
     "same-exception-type-two-invocations": "exception-occurrence-identity-ignores-invocation",
     "cron-first-poll-off-schedule": "cron-first-poll-fires-off-schedule",
     "cron-short-window": "cron-window-shorter-than-a-minute-ignored",
